@@ -36,18 +36,13 @@ Definition obs_eqb (a b : obs) : bool :=
   outcome_eqb oa ob && list_eqb kp_eqb pa pb && Bool.eqb ea eb && list_eqb (list_eqb val_eqb) la lb.
 Definition obsl_eqb := list_eqb obs_eqb.
 
-(* finding classes (findings/C08.json):
-   1 non-canonical names ("01", "+1", "-0") taken as array indices by arrayDefineOwnProperty
+(* open finding classes (findings/C08.json):
    2 holes become own undefined elements in the arrays returned by concat/slice/splice/map
    3 reduce/reduceRight without initial value over an array of holes returns undefined
    4 reduceRight passes the index as a string
-   5 splice() without arguments removes every element
-   6 reverse deletes before it puts when only the upper element exists
-   7 lastIndexOf with fromIndex = length inspects index length
-   8 redefining length with its current value on a non-writable length is rejected
-   9 String.prototype.substr: start + length overflows int64 (Go panic)
+   (1, 5, 6, 7, 8, 9 were repaired in /repo and are no longer modelled: their old behaviour is a violation)
    a history is attributed to the lowest-numbered departure that makes it differ from ES5 *)
-Definition classes : list Z := [1; 2; 3; 4; 5; 6; 7; 8].
+Definition classes : list Z := [2; 3; 4].
 
 Definition classify (init : obj) (ops : list op) (s : list obs) : Z :=
   match filter (fun c => negb (obsl_eqb (run (upto c) init ops) s)) classes with
